@@ -327,13 +327,14 @@ def check_unique_inds(ar):
     return None
 
 
-def check_kdt(x, y, K, bound):
+def check_kdt(x, y, K, bound, dtype=None):
     import emd.cycles as EC
     from scipy.spatial.distance import cdist
     x, y = np.asarray(x, float), np.asarray(y, float)
     kw = {} if bound is None else {'distance_upper_bound': bound}
     try:
-        xi, yi = EC.kdt_match(x.copy(), y.copy(), K=K, **kw)
+        # (integer-valued feature tables may be stored as integers / single precision: the pairing is that of the stored values)
+        xi, yi = EC.kdt_match(x.copy() if dtype is None else x.astype(dtype), y.copy() if dtype is None else y.astype(dtype), K=K, **kw)
     except Exception as ex:
         return 'raises', 'kdt_match(K=%d) raised %s: %s' % (K, type(ex).__name__, ex)
     xi, yi = np.asarray(xi), np.asarray(yi)
@@ -363,7 +364,7 @@ def replay(w):
         msg = check_unique_inds(np.array(w['ar']))
         return (msg is not None), (msg or 'ok')
     if w.get('kind') == 'kdt':
-        r = check_kdt(np.array(w['x']), np.array(w['y']), w['K'], w.get('bound'))
+        r = check_kdt(np.array(w['x']), np.array(w['y']), w['K'], w.get('bound'), w.get('dtype'))
         if r is None:
             return False, 'ok'
         return True, '%s (x=%s y=%s K=%d bound=%s)' % (r[1], np.round(np.array(w['x']), 3).tolist()[:8], np.round(np.array(w['y']), 3).tolist()[:8], w['K'], w.get('bound'))
@@ -383,7 +384,7 @@ def refute(tier, seed, emit):
             return
     r = rng(seed, 17)
     nr = 150 if tier == 'quick' else 20000
-    emit.scope('%d seeded random kdt_match instances: 1..4 features, 1..%d rows each, arbitrary row order, with and without exact ties (integer-valued features), K in 1..15, distance bounds {inf, moderate, tight}; plus every pair of 1-d instances with <= 3 rows over 3 values' % (nr, 60 if tier == 'quick' else 200), exhaustive=False)
+    emit.scope('%d seeded random kdt_match instances: 1..4 features, 1..%d rows each, arbitrary row order, with and without exact ties (integer-valued features, also stored as int64 / int32 / float32), K in 1..15, distance bounds {inf, moderate, tight}; plus every pair of 1-d instances with <= 3 rows over 3 values' % (nr, 60 if tier == 'quick' else 200), exhaustive=False)
     for k in range(nr):
         F = int(r.randint(1, 5))
         nx, ny = int(r.randint(1, 61 if tier == 'quick' else 201)), int(r.randint(1, 61 if tier == 'quick' else 201))
@@ -395,9 +396,10 @@ def refute(tier, seed, emit):
         if F == 1 and k % 4 == 0:
             x, y = x[:, 0], y[:, 0]
         emit.case(('kdt', k), contract='kdt_match')
-        res = check_kdt(x, y, K, bound)
+        dt = ['int64', 'float32', 'int32'][(k // 3) % 3] if (ties and k % 2 == 0) else None      # integer-valued tables stored as such
+        res = check_kdt(x, y, K, bound, dt)
         if res is not None:
-            emit.violation(res[0] + (':K=1' if K == 1 and res[0] == 'raises' else ''), {'kind': 'kdt', 'x': x.tolist(), 'y': y.tolist(), 'K': K, 'bound': bound}, res[1])
+            emit.violation(res[0] + (':K=1' if K == 1 and res[0] == 'raises' else '') + (':%s-features' % dt if dt else ''), {'kind': 'kdt', 'x': x.tolist(), 'y': y.tolist(), 'K': K, 'bound': bound, 'dtype': dt}, res[1])
         if emit.full:
             return
     for nx_, ny_ in itertools.product((1, 2, 3), repeat=2):
